@@ -14,6 +14,7 @@ EXPLANATION = (
     "function matching the writer (a relational invariant over two loops) and are reported UNDECIDED, never alarmed "
     "on. That accessors reproduce the parts is not decided.")
 EXPLANATION += " Also decided: no raw fixed-width arithmetic on a length, count or offset in these constructors can wrap."
+EXPLANATION += " Also decided: every byte of the fixed headers (Event 0..144, Filter 0..32, Tags 0..4) is written on every success path of every constructor and parser."
 ASSUMPTIONS = ["A1: usize size arithmetic does not overflow"]
 
 ENTRY = [
@@ -35,6 +36,9 @@ def run(ctx):
     ctx.instances["C19.narrowing-casts"] = n_narrow
     for o in obs:
         ctx.add(o)
+    # no header byte of a constructed value is left as the caller's buffer had it
+    from .C02 import header_coverage
+    header_coverage(ctx, s)
     # the refusing conversions are what the layout writers use: every to_ne_bytes that feeds the output of a
     # constructor takes a value produced by to_u16/to_u32 or a proven-narrow cast
     for name in ("pocket_types::json::to_u16", "pocket_types::json::to_u32"):
